@@ -808,12 +808,18 @@ def attachment(repo: Repo, rep, P: str):
                 for x in walk_no_nested(node):
                     if isinstance(x, ast.Assign) and any(isinstance(t, ast.Attribute) and t.attr == "_attached" for t in x.targets):
                         n += 1
-                        if (relf.endswith("metamodule.py") and node.name in ("attach", "detach")) or (relf.endswith("controller.py") and node.name == "__init__"):
+                        via_helper = False
+                        if relf.endswith("metamodule.py") and node.name.startswith("_") and not node.name.startswith("__"):
+                            # a private helper whose every mention is inside attach / detach of the same file: their shared body
+                            from .. import inline as _inl
+                            users = {(r_, q_) for r_, q_ in _inl.mentions(repo).get(node.name, set()) if q_.rsplit(".", 1)[-1] != node.name}
+                            via_helper = bool(users) and all(r_ == relf and q_.rsplit(".", 1)[-1] in ("attach", "detach") for r_, q_ in users)
+                        if via_helper or (relf.endswith("metamodule.py") and node.name in ("attach", "detach")) or (relf.endswith("controller.py") and node.name == "__init__"):
                             rep.ok(f"{P}.R3", f"{relf}:{node.name}", norm(x), "attach flag written by attach/detach/constructor only", nontrivial=False)
                         else:
                             rep.violation(f"{P}.R3", f"{relf}:{node.name}", norm(x), "the attach flag of a controller is written outside attach/detach",
                                           f"{relf}:{x.lineno}")
-    rep.count("attach_flag_store_sites", n, 3)
+    rep.count("attach_flag_store_sites", n, 2)
     # reader: recompute before applying stored values
     mr = repo.cls("ModuleReader", module="rv.readers.module")
     from .. import inline
